@@ -10,7 +10,7 @@ use std::io::Write;
 
 const MAGIC_LEN: usize = 21;
 
-fn gen_any_dict(rng: &mut Rng) -> (GenDict, Vec<Op>) {
+fn gen_any_dict(rng: &mut Rng, empty_scorer: bool) -> (GenDict, Vec<Op>) {
     let go = GenOpts { force_space: false, allow_uncovered: false, with_user: 40, tie_heavy: false, malformed: false, many_ids: false };
     let mut gd = gen_dict(rng, &go);
     // only valid user rows here (rejection is C08's subject)
@@ -21,11 +21,14 @@ fn gen_any_dict(rng: &mut Rng) -> (GenDict, Vec<Op>) {
         }
         if u.is_empty() { gd.user = None; }
     }
-    let kind = rng.below(3);
+    let kind = if empty_scorer { 1 + rng.below(2) } else { rng.below(3) };
     if kind >= 1 && gd.nright >= 2 && gd.nleft >= 2 {
         let big = rng.chance(1, 6);
         let bg = crate::c07::gen_bigram_sized(rng, big, false, gd.nright - 1, gd.nleft - 1);
-        gd.bigram = Some((bg.right_file(), bg.left_file(), bg.cost_file(), kind == 2));
+        // 1 in 8: no cost entry at all, or only entries for features no id carries (the scorer, resp. the dual
+        // connector's pruned scorer, is then empty)
+        let cost_file = match if empty_scorer { rng.below(2) } else { rng.below(16) } { 0 => String::new(), 1 => "UNUSED/unused\t7\n".to_string(), _ => bg.cost_file() };
+        gd.bigram = Some((bg.right_file(), bg.left_file(), cost_file, kind == 2));
     }
     let mut pre = vec![];
     if rng.chance(1, 2) {
@@ -134,7 +137,7 @@ pub fn run(prop: &str, seed: u64, n: usize, outdir: &str, _corpus: Option<&str>)
     for i in 0..n {
         let sub = master.next();
         let mut rng = Rng(sub);
-        let (gd, pre) = gen_any_dict(&mut rng);
+        let (gd, pre) = gen_any_dict(&mut rng, i % 6 == 4); // every sixth image: a bigram connector with an empty scorer
         let d = match build_with(&gd, &pre) {
             Outcome::Ok(d) => d,
             _ => {
